@@ -2531,8 +2531,31 @@ def desugar_option_calls(prog, fn):
     def assign(l, rv, at=None):
         return {"k": "assign", "lhs": {"l": l, "p": []}, "rv": rv, "at": at}
 
+    RES = "core::result::Result::<T, E>::"
     for bi in range(len(fn.blocks)):
         t = blocks[bi]["term"]
+        if not blocks[bi].get("cleanup") and t["k"] == "call" and (t.get("decl") or "") in (RES + "is_ok", RES + "is_err") and t.get("target") is not None and not t["dest"]["p"] and len(t["args"]) == 1:
+            # r.is_ok() / r.is_err() on a named Result: the match on its discriminant
+            r_ = t["args"][0].get("move") or t["args"][0].get("copy")
+            if r_ is not None and not r_["p"]:
+                rd = [st for b in blocks if not b.get("cleanup") for st in b["stmts"] if st["k"] == "assign" and st["lhs"]["l"] == r_["l"] and not st["lhs"]["p"]]
+                rc = [b for b in blocks if not b.get("cleanup") and b["term"]["k"] == "call" and b["term"]["dest"]["l"] == r_["l"]]
+                if len(rd) == 1 and not rc and rd[0]["rv"]["k"] == "ref":
+                    place = rd[0]["rv"]["place"]
+                    at = t.get("at")
+                    dest = t["dest"]["l"]
+                    want_ok = t["decl"].endswith("is_ok")
+                    dd = new_local("isize")
+                    unreach = new_block([], {"k": "unreachable", "at": at})
+                    okb = new_block([assign(dest, {"k": "use", "a": {"const": {"kind": "bool", "value": want_ok, "ty": "bool"}}}, at)], {"k": "goto", "target": t["target"], "at": at})
+                    errb = new_block([assign(dest, {"k": "use", "a": {"const": {"kind": "bool", "value": not want_ok, "ty": "bool"}}}, at)], {"k": "goto", "target": t["target"], "at": at})
+                    sw = new_block([assign(dd, {"k": "discr", "place": place, "ty": "core::result::Result<?>", "adt": "core::result::Result", "variants": {"0": "Ok", "1": "Err"}}, at)],
+                                   {"k": "switch", "discr": {"move": {"l": dd, "p": []}}, "discr_ty": "isize", "arms": [{"value": 0, "target": okb}, {"value": 1, "target": errb}], "otherwise": unreach, "at": at})
+                    nb = dict(blocks[bi])
+                    nb["term"] = {"k": "goto", "target": sw, "at": at}
+                    blocks[bi] = nb
+                    done.append("%s@bb%d" % (t["decl"].rsplit("::", 1)[-1], bi))
+            continue
         if blocks[bi].get("cleanup") or t["k"] != "call" or not (t.get("decl") or "").startswith(OPT) or t.get("target") is None or t["dest"]["p"]:
             continue
         kind = t["decl"][len(OPT):]
